@@ -10,6 +10,8 @@ Regions in which the unchanged pharmpy deviates are split off into `finding_<slu
 the exclusions of the main obligations) so that they go through known_findings.json and never hide another violation.
 """
 import itertools
+import os
+import re
 import sys
 
 from vcommon import Run
@@ -141,6 +143,9 @@ def main():
     run = Run('C18', 'other')
     thorough = run.tier == 'thorough'
     obs = build(thorough)
+    only = os.environ.get('VERIF_ONLY')          # developer aid: run only the obligations whose name matches
+    if only:
+        obs = [o for o in obs if re.search(only, o.name)]
     run.functions = [
         'tools.mfl.parse.ModelFeatures.__add__/__sub__/__eq__/contain_subset/least_number_of_transformations/create/'
         'convert_to_funcs/mfl_statement_list/__repr__',
